@@ -37,29 +37,35 @@ const (
 )
 
 type seqStep struct {
-	Op    string            `json:"op"`
-	T     int               `json:"t"`
-	N     int               `json:"n"`
-	M     []int             `json:"m"`
-	Map   json.RawMessage   `json:"map"`
-	S     []int             `json:"s"`
-	Res   []int             `json:"res"`
-	Size  []int             `json:"size"`
-	Some  bool              `json:"some"`
-	Nil   bool              `json:"nil"`
-	Kept  []int             `json:"kept"`
-	Split []int             `json:"split"`
-	Sv    int               `json:"sv"`
-	Sl    int               `json:"sl"`
-	Rl    int               `json:"rl"`
-	Pre   [][3]int          `json:"pre"`
-	Stats []json.RawMessage `json:"stats"`
+	Op     string            `json:"op"`
+	T      int               `json:"t"`
+	N      int               `json:"n"`
+	M      []int             `json:"m"`
+	Map    json.RawMessage   `json:"map"`
+	S      []int             `json:"s"`
+	Res    []int             `json:"res"`
+	Size   []int             `json:"size"`
+	Some   bool              `json:"some"`
+	Nil    bool              `json:"nil"`
+	Kept   []int             `json:"kept"`
+	Split  []int             `json:"split"`
+	Sv     int               `json:"sv"`
+	Sl     int               `json:"sl"`
+	Rl     int               `json:"rl"`
+	Pre    [][3]int          `json:"pre"`
+	Stats  []json.RawMessage `json:"stats"`
+	NoKey  bool              `json:"nokey"`  // growth: SplitSupervoxelOp without this block's key
+	FailAt int               `json:"failat"` // growth: the label allocator fails at this call
+	Fails  bool              `json:"fails"`
 }
 
 type seqBehaviour []seqStep
 
 // steps replayed per operation (the comparison loop is sequential)
 var c10OpCount = map[string]int{}
+var c10RLEPres [3]int // behaviours per presentation of the split run-lengths
+var c10DownresSizes = map[[3]int]int{}
+var c10BigEvery = 101 // one 64^3 and one 32x64x32 down-sampling case per c10BigEvery cases (164 in the thorough tier)
 
 func (b seqBehaviour) key() string {
 	var sb strings.Builder
@@ -213,6 +219,8 @@ func c10SeqCase(b seqBehaviour, id int, rng *rand.Rand, fast bool) *seqReplay {
 	rp.preS, rp.preR = pick(), pick()
 	rp.fresh0 = uint64(5000000000) + uint64(rng.Intn(1000000))*64
 	c := &lg.Case{ID: id, Geom: seqGeometry(rng, size, len(b[0].Res)), Seed: rng.Int63(), StepViews: true, Fast: fast}
+	c.RLEPres = id % 3 // growth: split run-lengths as maximal runs / broken into adjacent runs / single voxels
+	c10RLEPres[c.RLEPres]++
 	c.BCoord = [3]int32{int32(rng.Intn(5)) - 2, int32(rng.Intn(5)) - 1, int32(rng.Intn(300)) - 100}
 	for _, a := range b[0].Res {
 		c.Pal = append(c.Pal, []uint64{m[a]})
@@ -252,6 +260,7 @@ func c10SeqCase(b seqBehaviour, id int, rng *rand.Rand, fast bool) *seqReplay {
 			st.T, st.N = conc(s.T), conc(s.N)
 		case "splitsv":
 			st.T, st.N, st.M = conc(s.Sv), conc(s.Sl), []uint64{conc(s.Rl)}
+			st.NoKey = s.NoKey
 		case "splitsvs":
 			var ts [][3]int
 			must(json.Unmarshal(s.Map, &ts), "svmap")
@@ -263,6 +272,7 @@ func c10SeqCase(b seqBehaviour, id int, rng *rand.Rand, fast bool) *seqReplay {
 				st.SVMap = append(st.SVMap, [3]uint64{conc(t[0]), conc(t[1]), conc(t[2])})
 			}
 			st.Fresh0 = rp.fresh0
+			st.FailAt = s.FailAt
 		default:
 			infra("unknown op %q in behaviour", s.Op)
 		}
@@ -333,11 +343,22 @@ func c10SeqCompare(run *ev.Run, rp *seqReplay, o *lg.CaseObs) int {
 				}
 			}
 		case "splitsv":
+			if s.NoKey {
+				c10OpCount["splitsv-without-block-key"]++
+			}
 			wk, ws := sumRegions(sizes, s.Kept), sumRegions(sizes, s.Split)
 			if so.Kept != wk || so.Split != ws {
 				viol("splitsv-counts", step, [2]uint64{wk, ws}, [2]uint64{so.Kept, so.Split})
 			}
 		case "dosplit":
+			if s.Fails {
+				c10OpCount["dosplit-allocator-fails"]++
+				if !so.AllocFailed {
+					viol("dosplit-allocator-failure", step, "an error and no block from SplitStats and DoSplitWithStats", so)
+					return n
+				}
+				break
+			}
 			type est struct {
 				L, S, R int
 				Regs    []int
@@ -455,8 +476,22 @@ func tlaInts(a []int) string {
 
 func c10DownresCase(id int, kinds [8]int, rng *rand.Rand, fast bool) *drCase {
 	size := [][3]int{{16, 16, 16}, {16, 16, 16}, {32, 16, 16}, {16, 32, 16}, {16, 16, 32}}[rng.Intn(5)]
+	// growth: a few cases on 64^3 / 32x64x32 blocks, and a third of the cases with a wide label pool
+	// (up to 40 labels per octant instead of 5: larger label tables, more tie situations)
+	switch id % c10BigEvery {
+	case 7:
+		size = [3]int{64, 64, 64}
+	case 19:
+		size = [3]int{32, 64, 32}
+	}
+	rich := id%3 == 1
 	class := []string{"small", "top", "wide"}[rng.Intn(3)]
-	m := labelMap(class, 6, rng)
+	nlab := 6
+	if rich {
+		nlab = 40
+	}
+	m := labelMap(class, nlab, rng)
+	c10DownresSizes[size]++
 	d := &drCase{m: m, kinds: kinds}
 	c := &lg.DownresCase{ID: id, Size: size, Fast: fast}
 	gx, gy, gz := size[0]/8, size[1]/8, size[2]/8
@@ -542,6 +577,12 @@ func c10DownresCase(id int, kinds [8]int, rng *rand.Rand, fast bool) *drCase {
 				}
 				w := lg.CornerWeights(cp)
 				pool := [][]int{{0, 1}, {1, 2}, {0, 1, 2}, {1, 2, 3}, {0, 3, 4}, {2}, {0}, {1, 2, 3, 4}}[rng.Intn(8)]
+				if rich {
+					pool = make([]int, 2+rng.Intn(4))
+					for i := range pool {
+						pool[i] = rng.Intn(nlab + 1)
+					}
+				}
 				sb.WriteString("<<")
 				for gi := 0; gi < groups; gi++ {
 					if gi > 0 {
@@ -705,11 +746,18 @@ func checkC10(c *Ctx) int {
 		return len(behs)
 	}
 	nExh += replayRun(2, c.pick(2, 6), false, false, 0)
-	nRand += replayRun(c.pick(4, 5), 3, false, true, 1000+c.Seed)
+	nRand += replayRun(c.pick(4, 5), 2, false, true, 1000+c.Seed)
 	if c.thorough() {
 		nExh += replayRun(3, 1, true, false, 0)
 		nRand += replayRun(7, 2, true, true, 2000+c.Seed)
 	}
+	// (1b) growth: sequences on rich-palette blocks (c10_growth.go)
+	rs, rt, rBeh, rSteps, rTLC := c10Rich(c, run, pool, rng)
+	states += rs
+	trans += rt
+	nBeh += rBeh
+	steps += rSteps
+	tTLC += rTLC
 	tSeq := since(t0)
 	// (2) down-sampling
 	var kindsList [][8]int
@@ -740,6 +788,9 @@ func checkC10(c *Ctx) int {
 			pickd = append(pickd, kindsList[i])
 		}
 		kindsList = pickd
+	}
+	if c.thorough() {
+		c10BigEvery = 164
 	}
 	var drs []*drCase
 	for i, ks := range kindsList {
@@ -772,13 +823,16 @@ func checkC10(c *Ctx) int {
 	run.Set("behaviours_random_subtree", nRand)
 	run.Set("operation_steps_replayed", steps)
 	run.Set("steps_by_operation", c10OpCount)
+	run.Set("behaviours_by_split_runlength_presentation(maximal,broken,single-voxel)", c10RLEPres)
 	run.Set("downres_cases", len(drs))
 	run.Set("downres_octant_kind_combinations", len(kindsSeen))
 	run.Set("downres_paths_compared", paths)
+	run.Set("downres_block_sizes", fmt.Sprint(c10DownresSizes))
 	run.Set("tlc_s", tTLC)
-	run.Set("rule", "trace = one behaviour of LabelBlockSeq (initial labelling of 4 regions + operations from MergeLabels, ReplaceLabel, ReplaceLabels, Split, SplitSupervoxel, SplitSupervoxels, SplitStats/DoSplitWithStats with TLC's expected labelling and returned counts per step; all behaviours of depth 2, a seeded random sub-tree of deeper ones) replayed on one evolving labels.Block over a seeded geometry (regions = unions of sub-block parts: whole, halves, single voxel, runs, checkerboard, slabs, corner classes, cubes), with splitFast side by side and the views of the result block compared with its decoded volume after every step; or one down-sampling case (8 octants absent/solid/full with TLC's expected vote per site) through Downres, DownresSlow, DownresLabels, DownresFast; distinct_nontrivial = distinct behaviours (initial labelling + operations with all arguments; every behaviour has at least two operations) + distinct octant kind vectors")
-	run.Assume = []string{"regions are unions of sub-block parts from the geometry table; labels inside a region are uniform in the sequence model (palettes with many labels per sub-block are the subject of C09)",
-		"split sparse volumes are unions of regions, given as maximal x-runs inside the block in random order",
+	run.Set("rule", "trace = one behaviour of LabelBlockSeq (initial labelling of 4 regions + operations from MergeLabels, ReplaceLabel, ReplaceLabels, Split, SplitSupervoxel, SplitSupervoxels, SplitStats/DoSplitWithStats with TLC's expected labelling and returned counts per step; all behaviours of depth 2, a seeded random sub-tree of deeper ones) replayed on one evolving labels.Block over a seeded geometry (regions = unions of sub-block parts: whole, halves, single voxel, runs, checkerboard, slabs, corner classes, cubes), with splitFast side by side and the views of the result block compared with its decoded volume after every step; or one down-sampling case (8 octants absent/solid/full with TLC's expected vote per site) through Downres, DownresSlow, DownresLabels, DownresFast; Growth: the sequence model also has SplitSupervoxel whose op lacks the block's key and DoSplitWithStats / SplitStats with a label allocator that fails (error and no block expected); behaviours of LabelBlockRich (initial block = a dense class of C09, all ordered pairs of 11 operations, TLC's palettes of every sub-block and returned voxel counts per step) are replayed the same way; down-sampling cases include 64^3 and 32x64x32 blocks and octants drawing from 40 labels. distinct_nontrivial = distinct behaviours (initial labelling + operations with all arguments; every behaviour has at least two operations) + distinct octant kind vectors")
+	run.Assume = []string{"regions are unions of sub-block parts from the geometry table; labels inside a region are uniform in the long sequences (LabelBlockSeq); the rich-palette sequences (LabelBlockRich: every sub-block its own palette of up to 512 labels, 16^3 .. 64^3) have depth 2, a fixed list of 11 operations whose arguments are read off the current block, and sparse volumes that are sets of whole sub-blocks",
+		"split sparse volumes are unions of regions, given inside the block in random order as maximal x-runs, as runs broken into adjacent pieces, or as single voxels (a third of the behaviours each); overlapping runs are not used",
+		"a failing label allocator fails at its 1st or 2nd call; SplitSupervoxelOp without the block key files the run-lengths under the x-neighbour's key",
 		"SplitSupervoxels maps are used with split/remain labels outside their own domain; DoSplitWithStats at most once per behaviour"}
 	fmt.Printf("C10: claims on %d labellings; %d behaviours (%d exhaustive, %d random sub-tree), %d steps replayed (TLC %.1fs, replay %.1fs); %d down-sampling cases, %d paths (%.1fs total); violations=%d\n",
 		labellings, nBeh, nExh, nRand, steps, tTLC, tSeq-tTLC, len(drs), paths, since(t0), run.Violations())
